@@ -17,6 +17,10 @@ func main() {
 	tier := flag.String("tier", "quick", "quick | thorough")
 	replay := flag.String("replay", "", "file of input lines to re-execute on the implementation")
 	prof := flag.String("cpuprofile", "", "write a CPU profile")
+	smMax := flag.Int("max", 3, "smx: table size")
+	smLen := flag.Int("len", 4, "smx: sequence length")
+	part := flag.Int("part", 0, "smx: this process's share")
+	parts := flag.Int("parts", 1, "smx: number of shares")
 	flag.Parse()
 	if *prof != "" {
 		f, _ := os.Create(*prof)
@@ -56,6 +60,8 @@ func main() {
 		runEngine(*out, *seed, *n)
 	case "sm":
 		runSM(*out, *seed, *n)
+	case "smx":
+		runSMExhaustive(*out, *smMax, *smLen, *part, *parts)
 	case "rg":
 		runRG(*out, *seed, *n)
 	default:
